@@ -255,6 +255,13 @@ theorem peerOf_shutcloseIncomer (socks : List Sock) (ix : Incomer) (j : Nat) :
   · exact peerOf_upd _ _ _ _ (fun _ => rfl)
   · rfl
 
+theorem peerOf_shutStale (v : Version) (socks : List Sock) (tab : List (Addr × Incomer)) (ca : Addr)
+    (j : Nat) : peerOf (shutStale v socks tab ca) j = peerOf socks j := by
+  unfold shutStale
+  split
+  · exact peerOf_shutdownIncomer _ _ _
+  · rfl
+
 theorem shutcloseIncomer_ix (socks : List Sock) (ix : Incomer) :
     (shutcloseIncomer socks ix).2.sock = ix.sock ∧ (shutcloseIncomer socks ix).2.ca = ix.ca ∧
       (shutcloseIncomer socks ix).2.hasCs = false := by
@@ -301,25 +308,27 @@ theorem inv_admitOne (v : Version) (s : State) (cs : Nat) (ca : Addr) (h : Inv s
         exact ⟨hca.symm, hp _ _ (by unfold peerOf; rw [hk]; simp [hca])⟩
       split
       · -- TLS: into cxes
-        refine ⟨h.ixKeys, nodup_keys_put _ _ h.cxKeys, h.ixEnt, ?_⟩
+        have hp : ∀ j a, peerOf s.socks j = some a →
+            peerOf (shutStale v s.socks s.cxes ca) j = some a := by
+          intro j a hj; rw [peerOf_shutStale]; exact hj
+        refine ⟨h.ixKeys, nodup_keys_put _ _ h.cxKeys, fun e he => (h.ixEnt e he).mono hp, ?_⟩
         intro e he
         rcases mem_put he with rfl | he
-        · exact hnew _ (fun _ _ x => x)
-        · exact h.cxEnt e he
+        · exact hnew _ hp
+        · exact (h.cxEnt e he).mono hp
       · split
         · next old _ =>
-          cases v with
-          | orig => exact h
-          | fixed =>
-            have hp : ∀ j a, peerOf s.socks j = some a →
-                peerOf (shutdownIncomer s.socks old) j = some a := by
-              intro j a hj; rw [peerOf_shutdownIncomer]; exact hj
-            refine ⟨nodup_keys_put _ _ h.ixKeys, h.cxKeys, ?_, ?_⟩
-            · intro e he
-              rcases mem_put he with rfl | he
-              · exact hnew _ hp
-              · exact (h.ixEnt e he).mono hp
-            · intro e he; exact (h.cxEnt e he).mono hp
+          have hp : ∀ j a, peerOf s.socks j = some a →
+              peerOf (shutdownIncomer s.socks old) j = some a := by
+            intro j a hj; rw [peerOf_shutdownIncomer]; exact hj
+          cases v <;> first
+            | exact h
+            | (refine ⟨nodup_keys_put _ _ h.ixKeys, h.cxKeys, ?_, ?_⟩
+               · intro e he
+                 rcases mem_put he with rfl | he
+                 · exact hnew _ hp
+                 · exact (h.ixEnt e he).mono hp
+               · intro e he; exact (h.cxEnt e he).mono hp)
         · refine ⟨nodup_keys_put _ _ h.ixKeys, h.cxKeys, ?_, h.cxEnt⟩
           intro e he
           rcases mem_put he with rfl | he
@@ -347,15 +356,18 @@ theorem inv_serviceAccepts (s : State) (h : Inv s) : Inv (serviceAccepts s) :=
 theorem inv_serviceAxes (v : Version) (s : State) (h : Inv s) : Inv (serviceAxes v s).state :=
   inv_axesLoop v _ _ (inv_serviceAccepts s h)
 
-theorem inv_shakeOne (s : State) (ca : Addr) (cx : Incomer) (h : Inv s)
-    (hok : EntryOk s.socks (ca, cx)) : Inv (shakeOne s ca cx).state := by
+theorem inv_shakeOne (v : Version) (s : State) (ca : Addr) (cx : Incomer) (h : Inv s)
+    (hok : EntryOk s.socks (ca, cx)) : Inv (shakeOne v s ca cx).state := by
   unfold shakeOne
   split
-  · refine ⟨nodup_keys_put _ _ h.ixKeys, nodup_keys_del _ h.cxKeys, ?_, fun e he => h.cxEnt e (mem_del he)⟩
+  · have hp0 : ∀ j a, peerOf s.socks j = some a → peerOf (shutStale v s.socks s.ixes ca) j = some a := by
+      intro j a hj; rw [peerOf_shutStale]; exact hj
+    refine ⟨nodup_keys_put _ _ h.ixKeys, nodup_keys_del _ h.cxKeys, ?_,
+      fun e he => (h.cxEnt e (mem_del he)).mono hp0⟩
     intro e he
     rcases mem_put he with rfl | he
-    · exact hok
-    · exact h.ixEnt e he
+    · exact hok.mono hp0
+    · exact (h.ixEnt e he).mono hp0
   · split
     · exact h
     · split
@@ -368,12 +380,16 @@ theorem inv_shakeOne (s : State) (ca : Addr) (cx : Incomer) (h : Inv s)
         split
         · exact ⟨h.ixKeys, h.cxKeys, fun e he => (h.ixEnt e he).mono hp,
             fun e he => (h.cxEnt e he).mono hp⟩
-        · refine ⟨nodup_keys_put _ _ h.ixKeys, nodup_keys_del _ h.cxKeys, ?_,
-            fun e he => (h.cxEnt e (mem_del he)).mono hp⟩
+        · have hp1 : ∀ j a, peerOf s.socks j = some a →
+              peerOf (shutStale v (upd s.socks cx.sock (fun k => { k with hs := k.hs.tail })) s.ixes ca) j
+                = some a := by
+            intro j a hj; rw [peerOf_shutStale]; exact hp j a hj
+          refine ⟨nodup_keys_put _ _ h.ixKeys, nodup_keys_del _ h.cxKeys, ?_,
+            fun e he => (h.cxEnt e (mem_del he)).mono hp1⟩
           intro e he
           rcases mem_put he with rfl | he
-          · exact EntryOk.mono hp ⟨hok.1, hok.2⟩
-          · exact (h.ixEnt e he).mono hp
+          · exact EntryOk.mono hp1 ⟨hok.1, hok.2⟩
+          · exact (h.ixEnt e he).mono hp1
         · have hp2 : ∀ j a, peerOf s.socks j = some a →
               peerOf (shutcloseIncomer (upd s.socks cx.sock (fun k => { k with hs := k.hs.tail })) cx).1 j
                 = some a := by
@@ -386,11 +402,12 @@ theorem inv_shakeOne (s : State) (ca : Addr) (cx : Incomer) (h : Inv s)
           · exact (h.cxEnt e he).mono hp2
 
 /-- no primitive ever changes what `getpeername()` of an existing socket answers -/
-theorem peerOf_shakeOne (s : State) (ca : Addr) (cx : Incomer) (j : Nat) (a : Addr)
-    (hj : peerOf s.socks j = some a) : peerOf (shakeOne s ca cx).state.socks j = some a := by
+theorem peerOf_shakeOne (v : Version) (s : State) (ca : Addr) (cx : Incomer) (j : Nat) (a : Addr)
+    (hj : peerOf s.socks j = some a) : peerOf (shakeOne v s ca cx).state.socks j = some a := by
   unfold shakeOne
   split
-  · exact hj
+  · show peerOf (shutStale v s.socks s.ixes ca) j = some a
+    rw [peerOf_shutStale]; exact hj
   · split
     · exact hj
     · split
@@ -399,27 +416,28 @@ theorem peerOf_shakeOne (s : State) (ca : Addr) (cx : Incomer) (j : Nat) (a : Ad
           (peerOf_upd s.socks cx.sock j (fun k => { k with hs := k.hs.tail }) (fun _ => rfl)).trans hj
         split
         · exact hp
-        · exact hp
+        · show peerOf (shutStale v _ s.ixes ca) j = some a
+          rw [peerOf_shutStale]; exact hp
         · show peerOf (shutcloseIncomer _ cx).1 j = some a
           rw [peerOf_shutcloseIncomer]; exact hp
 
-theorem inv_cxesLoop (s : State) (l : List (Addr × Incomer)) (h : Inv s)
-    (hl : ∀ e ∈ l, EntryOk s.socks e) : Inv (cxesLoop s l).state := by
+theorem inv_cxesLoop (v : Version) (s : State) (l : List (Addr × Incomer)) (h : Inv s)
+    (hl : ∀ e ∈ l, EntryOk s.socks e) : Inv (cxesLoop v s l).state := by
   induction l generalizing s with
   | nil => exact h
   | cons e rest ih =>
     obtain ⟨ca, cx⟩ := e
     unfold cxesLoop
-    have hi := inv_shakeOne s ca cx h (hl _ List.mem_cons_self)
-    have hp := peerOf_shakeOne s ca cx
+    have hi := inv_shakeOne v s ca cx h (hl _ List.mem_cons_self)
+    have hp := peerOf_shakeOne v s ca cx
     split
     · next s' hs =>
       rw [hs] at hi hp
       exact ih s' hi (fun e he => (hl e (List.mem_cons_of_mem _ he)).mono hp)
     · next e' s' hs => rw [hs] at hi; exact hi
 
-theorem inv_serviceCxes (s : State) (h : Inv s) : Inv (serviceCxes s).state :=
-  inv_cxesLoop s s.cxes h h.cxEnt
+theorem inv_serviceCxes (v : Version) (s : State) (h : Inv s) : Inv (serviceCxes v s).state :=
+  inv_cxesLoop v s s.cxes h h.cxEnt
 
 theorem inv_serviceConnects (v : Version) (s : State) (h : Inv s) : Inv (serviceConnects v s).state := by
   unfold serviceConnects
@@ -428,7 +446,7 @@ theorem inv_serviceConnects (v : Version) (s : State) (h : Inv s) : Inv (service
   · next s' hs =>
     rw [hs] at this
     split
-    · exact inv_serviceCxes s' this
+    · exact inv_serviceCxes v s' this
     · exact this
   · next r hr =>
     cases hs : serviceAxes v s with
@@ -492,7 +510,7 @@ theorem inv_step (v : Version) (s : State) (op : Op) (h : Inv s) : Inv (step v s
   | serviceCxes =>
     simp only [step]
     split
-    · exact inv_serviceCxes s h
+    · exact inv_serviceCxes v s h
     · exact h
   | serviceConnects => exact inv_serviceConnects v s h
   | serviceAll =>
@@ -546,7 +564,7 @@ def heldBy (tab : List (Addr × Incomer)) (id : Nat) : Prop :=
 /-- every socket ever entered into the table is still the socket of a live entry, or has been shut
 down / closed, or was handed back to the caller by `removeIx(ca, shutclose=False)` -/
 def Accounted (s : State) : Prop :=
-  ∀ id ∈ s.admitted, heldBy s.ixes id ∨ isShut s.socks id ∨ id ∈ s.released
+  ∀ id ∈ s.admitted, heldBy (s.ixes ++ s.cxes) id ∨ isShut s.socks id ∨ id ∈ s.released
 
 theorem isShut_upd {socks : List Sock} {i id : Nat} {f : Sock → Sock}
     (hf : ∀ k, k.shutdowns ≤ (f k).shutdowns ∧ (k.closed = true → (f k).closed = true))
@@ -596,227 +614,388 @@ theorem shutcloseIncomer_shuts {socks : List Sock} {ix : Incomer} {a : Addr} (hc
     simp only [shutcloseIncomer, hcs, if_true, getElem?_upd, hk]
     rfl
 
-/-- the bundle preserved by every operation of a plain, repaired `Server` -/
-structure PlainInv (s : State) : Prop where
+theorem isShut_shutStale {v : Version} {socks : List Sock} {tab : List (Addr × Incomer)} {ca : Addr}
+    {id : Nat} (h : isShut socks id) : isShut (shutStale v socks tab ca) id := by
+  unfold shutStale
+  split
+  · exact isShut_shutdownIncomer _ h
+  · exact h
+
+theorem shutStale_shuts {socks : List Sock} {tab : List (Addr × Incomer)} {ca a : Addr} {old : Incomer}
+    (hg : get? tab ca = some old) (hcs : old.hasCs = true) (hp : peerOf socks old.sock = some a) :
+    isShut (shutStale .fixed2 socks tab ca) old.sock := by
+  simp only [shutStale, hg]
+  exact shutdownIncomer_shuts hcs hp
+
+theorem heldBy_append {a b : List (Addr × Incomer)} {id : Nat} :
+    heldBy (a ++ b) id ↔ heldBy a id ∨ heldBy b id := by
+  constructor
+  · rintro ⟨e, he, h1, h2⟩
+    rcases List.mem_append.mp he with he | he
+    · exact Or.inl ⟨e, he, h1, h2⟩
+    · exact Or.inr ⟨e, he, h1, h2⟩
+  · rintro (⟨e, he, h1, h2⟩ | ⟨e, he, h1, h2⟩)
+    · exact ⟨e, List.mem_append_left _ he, h1, h2⟩
+    · exact ⟨e, List.mem_append_right _ he, h1, h2⟩
+
+/-- replacing the entry under `ca`: a socket held by the table is still held, unless it was the replaced
+entry's — and then `hsh` says it has been shut -/
+theorem held_put {tab : List (Addr × Incomer)} {ca : Addr} {new : Incomer} {id : Nat} {socks' : List Sock}
+    (hn : (tab.map (·.1)).Nodup)
+    (hsh : ∀ old, get? tab ca = some old → old.hasCs = true → isShut socks' old.sock)
+    (h : heldBy tab id) : heldBy (put tab ca new) id ∨ isShut socks' id := by
+  obtain ⟨e, he, hes, hec⟩ := h
+  by_cases hek : e.1 = ca
+  · have hg := get?_of_mem_nodup hn (show (e.1, e.2) ∈ tab from he)
+    rw [hek] at hg
+    right; rw [← hes]; exact hsh _ hg hec
+  · exact Or.inl ⟨e, mem_put_of_ne he hek, hes, hec⟩
+
+theorem held_del {tab : List (Addr × Incomer)} {ca : Addr} {id : Nat} {socks' : List Sock}
+    (hn : (tab.map (·.1)).Nodup)
+    (hsh : ∀ old, get? tab ca = some old → old.hasCs = true → isShut socks' old.sock)
+    (h : heldBy tab id) : heldBy (del tab ca) id ∨ isShut socks' id := by
+  obtain ⟨e, he, hes, hec⟩ := h
+  by_cases hek : e.1 = ca
+  · have hg := get?_of_mem_nodup hn (show (e.1, e.2) ∈ tab from he)
+    rw [hek] at hg
+    right; rw [← hes]; exact hsh _ hg hec
+  · exact Or.inl ⟨e, mem_del_of_ne he hek, hes, hec⟩
+
+/-- the bundle preserved by every operation of both servers with all repairs -/
+structure AccInv (s : State) : Prop where
   inv : Inv s
-  plain : s.tls = false
   acc : Accounted s
 
-theorem plain_admitOne (s : State) (cs : Nat) (ca : Addr) (h : PlainInv s) :
-    PlainInv (admitOne .fixed s cs ca).state := by
-  have hi := inv_admitOne .fixed s cs ca h.inv
-  unfold admitOne at hi ⊢
-  split
-  · exact h
-  · next k hk =>
-    simp only [hk] at hi
-    split
-    · exact h
-    · next hchk =>
-      simp only [hchk, if_false] at hi
-      simp only [h.plain, Bool.false_eq_true, if_false] at hi ⊢
-      split
-      · next old hold =>
-        simp only [hold] at hi
-        refine ⟨hi, (by first | exact h.plain | rfl), ?_⟩
-        intro id hid
-        have holdmem := get?_some_mem hold
-        have holdok := h.inv.ixEnt _ holdmem
-        rcases List.mem_append.mp hid with hid | hid
-        · rcases h.acc id hid with ⟨e, he, hes, hec⟩ | hsh | hrel
-          · by_cases hek : e.1 = ca
-            · -- the displaced entry: its socket has just been shut down
-              have : e.2 = old := by
-                have := get?_of_mem_nodup h.inv.ixKeys (show (e.1, e.2) ∈ s.ixes from he)
-                rw [hek, hold] at this; exact (Option.some.inj this).symm
-              right; left
-              rw [← hes, this]
-              exact shutdownIncomer_shuts (by rw [← this]; exact hec) holdok.2
-            · exact Or.inl ⟨e, mem_put_of_ne he hek, hes, hec⟩
-          · exact Or.inr (Or.inl (isShut_shutdownIncomer old hsh))
-          · exact Or.inr (Or.inr hrel)
-        · simp only [List.mem_singleton] at hid
-          subst hid
-          exact Or.inl ⟨_, mem_put_self _ _ _, rfl, rfl⟩
-      · next hnone =>
-        simp only [hnone] at hi
-        refine ⟨hi, (by first | exact h.plain | rfl), ?_⟩
-        intro id hid
-        have hnk := get?_none_not_mem hnone
-        rcases List.mem_append.mp hid with hid | hid
-        · rcases h.acc id hid with ⟨e, he, hes, hec⟩ | hsh | hrel
-          · have hek : e.1 ≠ ca := fun hek => hnk (List.mem_map.mpr ⟨e, he, hek⟩)
-            exact Or.inl ⟨e, mem_put_of_ne he hek, hes, hec⟩
-          · exact Or.inr (Or.inl hsh)
-          · exact Or.inr (Or.inr hrel)
-        · simp only [List.mem_singleton] at hid
-          subst hid
-          exact Or.inl ⟨_, mem_put_self _ _ _, rfl, rfl⟩
+/-- generic step: tables and socket table change such that every previously accounted socket stays
+accounted -/
+theorem acc_of {s s' : State} (hadm : s'.admitted = s.admitted) (hrel : ∀ id ∈ s.released, id ∈ s'.released)
+    (hheld : ∀ id, heldBy (s.ixes ++ s.cxes) id →
+      heldBy (s'.ixes ++ s'.cxes) id ∨ isShut s'.socks id ∨ id ∈ s'.released)
+    (hshut : ∀ id, isShut s.socks id → isShut s'.socks id) (h : Accounted s) : Accounted s' := by
+  intro id hid
+  rw [hadm] at hid
+  rcases h id hid with hh | hsh | hr
+  · exact hheld id hh
+  · exact Or.inr (Or.inl (hshut id hsh))
+  · exact Or.inr (Or.inr (hrel id hr))
 
-theorem plain_axesLoop (s : State) (l : List (Nat × Addr)) (h : PlainInv s) :
-    PlainInv (axesLoop .fixed s l).state := by
+theorem acc_admitOne (s : State) (cs : Nat) (ca : Addr) (h : AccInv s) :
+    AccInv (admitOne .fixed2 s cs ca).state := by
+  refine ⟨inv_admitOne .fixed2 s cs ca h.inv, ?_⟩
+  unfold admitOne
+  split
+  · exact h.acc
+  · next k hk =>
+    split
+    · exact h.acc
+    · split
+      · -- TLS: into cxes, a stale pending incomer is shut down
+        intro id hid
+        rcases List.mem_append.mp hid with hid | hid
+        · rcases h.acc id hid with hh | hsh | hr
+          · rcases heldBy_append.mp hh with hh | hh
+            · exact Or.inl (heldBy_append.mpr (Or.inl hh))
+            · have := held_put (new := { sock := cs, ca := k.peer })
+                (socks' := shutStale .fixed2 s.socks s.cxes ca) h.inv.cxKeys
+                (fun old hg hcs => shutStale_shuts hg hcs (h.inv.cxEnt _ (get?_some_mem hg)).2) hh
+              rcases this with t | t
+              · exact Or.inl (heldBy_append.mpr (Or.inr t))
+              · exact Or.inr (Or.inl t)
+          · exact Or.inr (Or.inl (isShut_shutStale hsh))
+          · exact Or.inr (Or.inr hr)
+        · simp only [List.mem_singleton] at hid
+          subst hid
+          exact Or.inl (heldBy_append.mpr (Or.inr ⟨_, mem_put_self _ _ _, rfl, rfl⟩))
+      · split
+        · next old hold =>
+          intro id hid
+          rcases List.mem_append.mp hid with hid | hid
+          · rcases h.acc id hid with hh | hsh | hr
+            · rcases heldBy_append.mp hh with hh | hh
+              · have := held_put (new := { sock := cs, ca := k.peer })
+                  (socks' := shutdownIncomer s.socks old) h.inv.ixKeys
+                  (fun old' hg hcs => by
+                    rw [hold] at hg; cases hg
+                    exact shutdownIncomer_shuts hcs (h.inv.ixEnt _ (get?_some_mem hold)).2) hh
+                rcases this with t | t
+                · exact Or.inl (heldBy_append.mpr (Or.inl t))
+                · exact Or.inr (Or.inl t)
+              · exact Or.inl (heldBy_append.mpr (Or.inr hh))
+            · exact Or.inr (Or.inl (isShut_shutdownIncomer old hsh))
+            · exact Or.inr (Or.inr hr)
+          · simp only [List.mem_singleton] at hid
+            subst hid
+            exact Or.inl (heldBy_append.mpr (Or.inl ⟨_, mem_put_self _ _ _, rfl, rfl⟩))
+        · next hnone =>
+          intro id hid
+          rcases List.mem_append.mp hid with hid | hid
+          · rcases h.acc id hid with hh | hsh | hr
+            · rcases heldBy_append.mp hh with hh | hh
+              · have := held_put (new := { sock := cs, ca := k.peer }) (socks' := s.socks) h.inv.ixKeys
+                  (fun old' hg _ => by rw [hnone] at hg; cases hg) hh
+                rcases this with t | t
+                · exact Or.inl (heldBy_append.mpr (Or.inl t))
+                · exact Or.inr (Or.inl t)
+              · exact Or.inl (heldBy_append.mpr (Or.inr hh))
+            · exact Or.inr (Or.inl hsh)
+            · exact Or.inr (Or.inr hr)
+          · simp only [List.mem_singleton] at hid
+            subst hid
+            exact Or.inl (heldBy_append.mpr (Or.inl ⟨_, mem_put_self _ _ _, rfl, rfl⟩))
+
+theorem acc_axesLoop (s : State) (l : List (Nat × Addr)) (h : AccInv s) :
+    AccInv (axesLoop .fixed2 s l).state := by
   induction l generalizing s with
-  | nil => exact ⟨inv_axes_irrelevant [] h.inv, h.plain, h.acc⟩
+  | nil => exact ⟨inv_axes_irrelevant [] h.inv, h.acc⟩
   | cons e rest ih =>
     obtain ⟨cs, ca⟩ := e
     unfold axesLoop
-    have := plain_admitOne { s with axes := rest } cs ca ⟨inv_axes_irrelevant rest h.inv, h.plain, h.acc⟩
+    have := acc_admitOne { s with axes := rest } cs ca ⟨inv_axes_irrelevant rest h.inv, h.acc⟩
     split
     · next s' hs => rw [hs] at this; exact ih s' this
     · next e' s' hs => rw [hs] at this; exact this
 
-theorem plain_serviceAxes (s : State) (h : PlainInv s) : PlainInv (serviceAxes .fixed s).state :=
-  plain_axesLoop _ _ ⟨inv_serviceAccepts s h.inv, h.plain, h.acc⟩
+theorem acc_serviceAxes (s : State) (h : AccInv s) : AccInv (serviceAxes .fixed2 s).state :=
+  acc_axesLoop _ _ ⟨inv_serviceAccepts s h.inv, h.acc⟩
 
-theorem plain_serviceConnects (s : State) (h : PlainInv s) :
-    PlainInv (serviceConnects .fixed s).state := by
+/-- moving `(ca, cx)` from `.cxes` to `.ixes` (after `shutStale`) keeps everything accounted -/
+theorem acc_move {s : State} {ca : Addr} {cx cx' : Incomer} {socks0 : List Sock} (h : AccInv s)
+    (hcx : (ca, cx) ∈ s.cxes) (hsock : cx'.sock = cx.sock) (hhas : cx'.hasCs = cx.hasCs)
+    (hp0 : ∀ j a, peerOf s.socks j = some a → peerOf socks0 j = some a)
+    (hs0 : ∀ id, isShut s.socks id → isShut socks0 id) :
+    Accounted { s with socks := shutStale .fixed2 socks0 s.ixes ca, ixes := put s.ixes ca cx',
+                       cxes := del s.cxes ca } := by
+  intro id hid
+  rcases h.acc id hid with hh | hsh | hr
+  · rcases heldBy_append.mp hh with hh | hh
+    · have := held_put (new := cx') (socks' := shutStale .fixed2 socks0 s.ixes ca) h.inv.ixKeys
+        (fun old hg hcs => shutStale_shuts hg hcs (hp0 _ _ (h.inv.ixEnt _ (get?_some_mem hg)).2)) hh
+      rcases this with t | t
+      · exact Or.inl (heldBy_append.mpr (Or.inl t))
+      · exact Or.inr (Or.inl t)
+    · obtain ⟨e, he, hes, hec⟩ := hh
+      by_cases hek : e.1 = ca
+      · have g1 := get?_of_mem_nodup h.inv.cxKeys (show (e.1, e.2) ∈ s.cxes from he)
+        have g2 := get?_of_mem_nodup h.inv.cxKeys hcx
+        rw [hek, g2] at g1
+        have he2 : e.2 = cx := (Option.some.inj g1).symm
+        exact Or.inl (heldBy_append.mpr (Or.inl ⟨(ca, cx'), mem_put_self _ _ _,
+          by rw [← hes, he2]; exact hsock, by rw [← he2] at hhas; rw [hhas]; exact hec⟩))
+      · exact Or.inl (heldBy_append.mpr (Or.inr ⟨e, mem_del_of_ne he hek, hes, hec⟩))
+  · exact Or.inr (Or.inl (isShut_shutStale (hs0 id hsh)))
+  · exact Or.inr (Or.inr hr)
+
+theorem acc_shakeOne (s : State) (ca : Addr) (cx : Incomer) (h : AccInv s) (hcx : (ca, cx) ∈ s.cxes) :
+    AccInv (shakeOne .fixed2 s ca cx).state := by
+  have hok := h.inv.cxEnt _ hcx
+  refine ⟨inv_shakeOne .fixed2 s ca cx h.inv hok, ?_⟩
+  unfold shakeOne
+  split
+  · exact acc_move h hcx rfl rfl (fun _ _ x => x) (fun _ x => x)
+  · split
+    · exact h.acc
+    · next hcs =>
+      have hcs' : cx.hasCs = true := by simpa using hcs
+      split
+      · exact h.acc
+      · next k hk =>
+        have hp : ∀ j a, peerOf s.socks j = some a →
+            peerOf (upd s.socks cx.sock (fun k => { k with hs := k.hs.tail })) j = some a := by
+          intro j a hj
+          exact (peerOf_upd s.socks cx.sock j (fun k => { k with hs := k.hs.tail }) (fun _ => rfl)).trans hj
+        have hs0 : ∀ id, isShut s.socks id →
+            isShut (upd s.socks cx.sock (fun k => { k with hs := k.hs.tail })) id :=
+          fun id hx => isShut_upd (fun k => ⟨Nat.le_refl _, fun hc => hc⟩) hx
+        split
+        · exact acc_of (s := s) rfl (fun _ x => x) (fun id hh => Or.inl hh) hs0 h.acc
+        · exact acc_move h hcx rfl rfl hp hs0
+        · -- handshake failed: the incomer is closed and stays (socket-less) in .cxes
+          intro id hid
+          rcases h.acc id hid with hh | hsh | hr
+          · rcases heldBy_append.mp hh with hh | hh
+            · exact Or.inl (heldBy_append.mpr (Or.inl hh))
+            · have := held_put
+                (new := (shutcloseIncomer (upd s.socks cx.sock (fun k => { k with hs := k.hs.tail })) cx).2)
+                (socks' := (shutcloseIncomer (upd s.socks cx.sock (fun k => { k with hs := k.hs.tail })) cx).1)
+                h.inv.cxKeys
+                (fun old hg _ => by
+                  have g2 := get?_of_mem_nodup h.inv.cxKeys hcx
+                  rw [g2] at hg; cases hg
+                  exact shutcloseIncomer_shuts hcs' (hp _ _ hok.2)) hh
+              rcases this with t | t
+              · exact Or.inl (heldBy_append.mpr (Or.inr t))
+              · exact Or.inr (Or.inl t)
+          · exact Or.inr (Or.inl (isShut_shutcloseIncomer cx (hs0 id hsh)))
+          · exact Or.inr (Or.inr hr)
+
+/-- an entry of the snapshot under another key is still in `.cxes` after one `shakeOne` -/
+theorem mem_cxes_shakeOne (v : Version) (s : State) (ca : Addr) (cx : Incomer) (e : Addr × Incomer)
+    (he : e ∈ s.cxes) (hne : e.1 ≠ ca) : e ∈ (shakeOne v s ca cx).state.cxes := by
+  unfold shakeOne
+  split
+  · exact mem_del_of_ne he hne
+  · split
+    · exact he
+    · split
+      · exact he
+      · split
+        · exact he
+        · exact mem_del_of_ne he hne
+        · exact mem_put_of_ne he hne
+
+theorem acc_cxesLoop (s : State) (l : List (Addr × Incomer)) (h : AccInv s)
+    (hl : ∀ e ∈ l, e ∈ s.cxes) (hn : (l.map (·.1)).Nodup) : AccInv (cxesLoop .fixed2 s l).state := by
+  induction l generalizing s with
+  | nil => exact h
+  | cons e rest ih =>
+    obtain ⟨ca, cx⟩ := e
+    unfold cxesLoop
+    have hi := acc_shakeOne s ca cx h (hl _ List.mem_cons_self)
+    simp only [List.map_cons, List.nodup_cons] at hn
+    have hrest : ∀ e ∈ rest, e ∈ (shakeOne .fixed2 s ca cx).state.cxes := by
+      intro e he
+      refine mem_cxes_shakeOne _ s ca cx e (hl e (List.mem_cons_of_mem _ he)) ?_
+      intro hk
+      exact hn.1 (List.mem_map.mpr ⟨e, he, hk⟩)
+    split
+    · next s' hs => rw [hs] at hi hrest; exact ih s' hi hrest hn.2
+    · next e' s' hs => rw [hs] at hi; exact hi
+
+theorem acc_serviceCxes (s : State) (h : AccInv s) : AccInv (serviceCxes .fixed2 s).state :=
+  acc_cxesLoop s s.cxes h (fun _ x => x) h.inv.cxKeys
+
+theorem acc_serviceConnects (s : State) (h : AccInv s) : AccInv (serviceConnects .fixed2 s).state := by
   unfold serviceConnects
-  have := plain_serviceAxes s h
+  have := acc_serviceAxes s h
   split
   · next s' hs =>
     rw [hs] at this
-    simp only [Res.state] at this
-    simp only [this.plain, Bool.false_eq_true, if_false]
-    exact this
+    split
+    · exact acc_serviceCxes s' this
+    · exact this
   · next r hr =>
-    cases hs : serviceAxes .fixed s with
+    cases hs : serviceAxes .fixed2 s with
     | ok s' => exact absurd hs (hr s')
     | raised e s' => rw [hs] at this; exact this
 
-theorem plain_shutdownIx (s : State) (ca : Addr) (h : PlainInv s) : PlainInv (shutdownIx s ca).state := by
-  have hi := inv_shutdownIx s ca h.inv
-  unfold shutdownIx at hi ⊢
+theorem acc_shutdownIx (s : State) (ca : Addr) (h : AccInv s) : AccInv (shutdownIx s ca).state := by
+  refine ⟨inv_shutdownIx s ca h.inv, ?_⟩
+  unfold shutdownIx
   split
-  · exact h
+  · exact h.acc
   · next ix hix =>
-    simp only [hix] at hi
-    refine ⟨hi, h.plain, ?_⟩
-    intro id hid
-    rcases h.acc id hid with hh | hsh | hrel
-    · exact Or.inl hh
-    · exact Or.inr (Or.inl (isShut_shutdownIncomer ix hsh))
-    · exact Or.inr (Or.inr hrel)
+    exact acc_of (s := s) rfl (fun _ x => x) (fun id hh => Or.inl hh) (fun id hx => isShut_shutdownIncomer ix hx) h.acc
 
-theorem plain_closeIx (s : State) (ca : Addr) (h : PlainInv s) : PlainInv (closeIx s ca).state := by
-  have hi := inv_closeIx s ca h.inv
-  unfold closeIx at hi ⊢
+theorem acc_closeIx (s : State) (ca : Addr) (h : AccInv s) : AccInv (closeIx s ca).state := by
+  refine ⟨inv_closeIx s ca h.inv, ?_⟩
+  unfold closeIx
   split
-  · exact h
+  · exact h.acc
   · next ix hix =>
-    simp only [hix] at hi
-    refine ⟨hi, h.plain, ?_⟩
-    intro id hid
-    have hmem := get?_some_mem hix
-    have hok := h.inv.ixEnt _ hmem
-    rcases h.acc id hid with ⟨e, he, hes, hec⟩ | hsh | hrel
-    · by_cases hek : e.1 = ca
-      · have : e.2 = ix := by
-          have := get?_of_mem_nodup h.inv.ixKeys (show (e.1, e.2) ∈ s.ixes from he)
-          rw [hek, hix] at this; exact (Option.some.inj this).symm
-        right; left
-        rw [← hes, this]
-        exact shutcloseIncomer_shuts (by rw [← this]; exact hec) hok.2
-      · exact Or.inl ⟨e, mem_put_of_ne he hek, hes, hec⟩
-    · exact Or.inr (Or.inl (isShut_shutcloseIncomer ix hsh))
-    · exact Or.inr (Or.inr hrel)
+    refine acc_of (s := s) rfl (fun _ x => x) ?_ (fun id hx => isShut_shutcloseIncomer ix hx) h.acc
+    intro id hh
+    rcases heldBy_append.mp hh with hh | hh
+    · have := held_put (new := (shutcloseIncomer s.socks ix).2) (socks' := (shutcloseIncomer s.socks ix).1)
+        h.inv.ixKeys
+        (fun old hg hcs => by
+          rw [hix] at hg; cases hg
+          exact shutcloseIncomer_shuts hcs (h.inv.ixEnt _ (get?_some_mem hix)).2) hh
+      rcases this with t | t
+      · exact Or.inl (heldBy_append.mpr (Or.inl t))
+      · exact Or.inr (Or.inl t)
+    · exact Or.inl (heldBy_append.mpr (Or.inr hh))
 
-theorem plain_closeAllLoop (s : State) (l : List (Addr × Incomer)) (h : PlainInv s) :
-    PlainInv (closeAllLoop s l) := by
+theorem acc_closeAllLoop (s : State) (l : List (Addr × Incomer)) (h : AccInv s) :
+    AccInv (closeAllLoop s l) := by
   induction l generalizing s with
   | nil => exact h
   | cons e rest ih =>
     obtain ⟨ca, ix⟩ := e
     unfold closeAllLoop
-    have := plain_closeIx s ca h
+    have := acc_closeIx s ca h
     split
     · next s' hs => rw [hs] at this; exact ih s' this
     · next e' s' hs => rw [hs] at this; exact ih s' this
 
-theorem plain_removeIx (s : State) (ca : Addr) (sc : Bool) (h : PlainInv s) :
-    PlainInv (removeIx s ca sc).state := by
-  have hi := inv_removeIx s ca sc h.inv
-  unfold removeIx at hi ⊢
+theorem acc_removeIx (s : State) (ca : Addr) (sc : Bool) (h : AccInv s) :
+    AccInv (removeIx s ca sc).state := by
+  refine ⟨inv_removeIx s ca sc h.inv, ?_⟩
+  unfold removeIx
   split
-  · exact h
+  · exact h.acc
   · next ix hix =>
-    simp only [hix] at hi
-    have hmem := get?_some_mem hix
-    have hok := h.inv.ixEnt _ hmem
-    have key : ∀ e ∈ s.ixes, e.1 = ca → e.2 = ix := by
-      intro e he hek
-      have := get?_of_mem_nodup h.inv.ixKeys (show (e.1, e.2) ∈ s.ixes from he)
-      rw [hek, hix] at this; exact (Option.some.inj this).symm
+    have hok := h.inv.ixEnt _ (get?_some_mem hix)
     split
-    · next hsc =>
-      simp only [hsc, if_true] at hi
-      refine ⟨hi, h.plain, ?_⟩
-      intro id hid
-      rcases h.acc id hid with ⟨e, he, hes, hec⟩ | hsh | hrel
-      · by_cases hek : e.1 = ca
-        · have := key e he hek
-          right; left
-          rw [← hes, this]
-          exact shutcloseIncomer_shuts (by rw [← this]; exact hec) hok.2
-        · exact Or.inl ⟨e, mem_del_of_ne he hek, hes, hec⟩
-      · exact Or.inr (Or.inl (isShut_shutcloseIncomer ix hsh))
-      · exact Or.inr (Or.inr hrel)
-    · next hsc =>
-      simp only [hsc] at hi
-      refine ⟨hi, h.plain, ?_⟩
-      intro id hid
-      rcases h.acc id hid with ⟨e, he, hes, hec⟩ | hsh | hrel
-      · by_cases hek : e.1 = ca
-        · have := key e he hek
-          right; right
-          show id ∈ (if ix.hasCs = true then s.released ++ [ix.sock] else s.released)
-          rw [← this, hec, if_pos rfl, hes]
-          exact List.mem_append_right _ List.mem_cons_self
-        · exact Or.inl ⟨e, mem_del_of_ne he hek, hes, hec⟩
-      · exact Or.inr (Or.inl hsh)
-      · right; right
+    · refine acc_of (s := s) rfl (fun _ x => x) ?_ (fun id hx => isShut_shutcloseIncomer ix hx) h.acc
+      intro id hh
+      rcases heldBy_append.mp hh with hh | hh
+      · have := held_del (socks' := (shutcloseIncomer s.socks ix).1) h.inv.ixKeys
+          (fun old hg hcs => by
+            rw [hix] at hg; cases hg
+            exact shutcloseIncomer_shuts hcs hok.2) hh
+        rcases this with t | t
+        · exact Or.inl (heldBy_append.mpr (Or.inl t))
+        · exact Or.inr (Or.inl t)
+      · exact Or.inl (heldBy_append.mpr (Or.inr hh))
+    · refine acc_of (s := s) rfl ?_ ?_ (fun _ x => x) h.acc
+      · intro id hr
         show id ∈ (if ix.hasCs = true then s.released ++ [ix.sock] else s.released)
         split
-        · exact List.mem_append_left _ hrel
-        · exact hrel
+        · exact List.mem_append_left _ hr
+        · exact hr
+      · intro id hh
+        rcases heldBy_append.mp hh with hh | hh
+        · obtain ⟨e, he, hes, hec⟩ := hh
+          by_cases hek : e.1 = ca
+          · have g := get?_of_mem_nodup h.inv.ixKeys (show (e.1, e.2) ∈ s.ixes from he)
+            rw [hek, hix] at g
+            have he2 : e.2 = ix := (Option.some.inj g).symm
+            right; right
+            show id ∈ (if ix.hasCs = true then s.released ++ [ix.sock] else s.released)
+            rw [← he2, hec, if_pos rfl, hes]
+            exact List.mem_append_right _ List.mem_cons_self
+          · exact Or.inl (heldBy_append.mpr (Or.inl ⟨e, mem_del_of_ne he hek, hes, hec⟩))
+        · exact Or.inl (heldBy_append.mpr (Or.inr hh))
 
-theorem plain_step (s : State) (op : Op) (h : PlainInv s) : PlainInv (step .fixed s op).state := by
+theorem acc_step (s : State) (op : Op) (h : AccInv s) : AccInv (step .fixed2 s op).state := by
   cases op with
   | arrive peer sockname reported hs =>
-    refine ⟨inv_step .fixed s (.arrive peer sockname reported hs) h.inv, h.plain, ?_⟩
-    intro id hid
-    rcases h.acc id hid with hh | ⟨k, hk, hs'⟩ | hrel
-    · exact Or.inl hh
-    · refine Or.inr (Or.inl ⟨k, ?_, hs'⟩)
-      show (s.socks ++ _)[id]? = some k
-      rw [List.getElem?_append_left (List.getElem?_eq_some_iff.mp hk).1]; exact hk
-    · exact Or.inr (Or.inr hrel)
-  | serviceAccepts => exact ⟨inv_serviceAccepts s h.inv, h.plain, h.acc⟩
-  | serviceAxes => exact plain_serviceAxes s h
+    refine ⟨inv_step .fixed2 s (.arrive peer sockname reported hs) h.inv, ?_⟩
+    refine acc_of (s := s) rfl (fun _ x => x) (fun id hh => Or.inl hh) ?_ h.acc
+    rintro id ⟨k, hk, hs'⟩
+    refine ⟨k, ?_, hs'⟩
+    show (s.socks ++ _)[id]? = some k
+    rw [List.getElem?_append_left (List.getElem?_eq_some_iff.mp hk).1]; exact hk
+  | serviceAccepts => exact ⟨inv_serviceAccepts s h.inv, h.acc⟩
+  | serviceAxes => exact acc_serviceAxes s h
   | serviceCxes =>
-    simp only [step, h.plain, Bool.false_eq_true, if_false]
-    exact h
-  | serviceConnects => exact plain_serviceConnects s h
+    simp only [step]
+    split
+    · exact acc_serviceCxes s h
+    · exact h
+  | serviceConnects => exact acc_serviceConnects s h
   | serviceAll =>
     simp only [step, serviceAll]
-    have := plain_serviceConnects s h
+    have := acc_serviceConnects s h
     split
     · next s' hs =>
       rw [hs] at this
       unfold serviceReceivesAllIx
       split <;> exact this
     · next r hr =>
-      cases hs : serviceConnects .fixed s with
+      cases hs : serviceConnects .fixed2 s with
       | ok s' => exact absurd hs (hr s')
       | raised e s' => rw [hs] at this; exact this
-  | shutdownIx ca => exact plain_shutdownIx s ca h
-  | closeIx ca => exact plain_closeIx s ca h
-  | closeAllIx => exact plain_closeAllLoop s s.ixes h
-  | removeIx ca sc => exact plain_removeIx s ca sc h
+  | shutdownIx ca => exact acc_shutdownIx s ca h
+  | closeIx ca => exact acc_closeIx s ca h
+  | closeAllIx => exact acc_closeAllLoop s s.ixes h
+  | removeIx ca sc => exact acc_removeIx s ca sc h
 
-theorem plain_run (s : State) (ops : List Op) (h : PlainInv s) : PlainInv (run .fixed s ops) := by
+theorem acc_run (s : State) (ops : List Op) (h : AccInv s) : AccInv (run .fixed2 s ops) := by
   induction ops generalizing s with
   | nil => exact h
-  | cons op ops ih => exact ih _ (plain_step s op h)
+  | cons op ops ih => exact ih _ (acc_step s op h)
 
 /-- region of finding D14b: a TLS server and an address that arrives more than once -/
 def hasDup : List Nat → Bool
